@@ -14,6 +14,6 @@ def conds(tier):
                     builds=("C", "P"),
                     budget=200, family="F-CTX x F-REENTRY (synchronous calls, child tasks)", encodes=ctx.ENC_CTX))
     if not q:
-        out.append(Cond("ctx3", ctx.mk_ctx2(P, 3, (0, 1, 2, 4, 5, 6, 8), (0, 3, 4, 6, 7), 5), ctx.ctx2_params(3, 7, 5, 5),
+        out.append(Cond("ctx3", ctx.mk_ctx2(P, 3, (0, 1, 4, 6, 8), (0, 3, 4, 6, 7, 11, 12), 4), ctx.ctx2_params(3, 5, 7, 4),
                         pin=3, budget=3000, family="F-CTX three steps", encodes=ctx.ENC_CTX))
     return out
